@@ -167,13 +167,17 @@ theorem Bus.transmitting_allOwn (cfg : Cfg) (b : Bus) (i : Nat) (l now : Int) (h
     unfold cEnd at this
     omega
 
-/-- **A station alone on the bus** (record `st`, stamp `l`): every logged transmission is its own and has ended
-by `l + 1`; the station is alive, online, satisfies the station invariant and has an empty buffer. -/
+/-- **A station alone on the bus** (record `st`, stamp `l`): every logged transmission is its own (ended by `l + 1`) or has
+been delivered to it completely; the log is fault-free and non-overlapping; the station is alive, online, satisfies the station invariant and has an empty buffer. -/
 structure Solo (cfg : Cfg) (n : Net) (x : Nat) (st : NetStation) (l : Int) : Prop where
   rate : n.bus.rate = cfg.rate
   drops : n.bus.drops = []
-  own : ∀ o ∈ n.bus.txs, o.sender = x
-  ends : ∀ o ∈ n.bus.txs, cEnd cfg o ≤ l + 1
+  corrupt : n.bus.corrupt = []
+  chained : CChained cfg n.bus.txs
+  live : ∀ t ∈ n.bus.txs, t.dropped = false
+  pos : ∀ t ∈ n.bus.txs, 0 < t.bytes.length
+  done : ∀ o ∈ n.bus.txs, o.sender = x ∨ cEnd cfg o ≤ n.bus.seen.getD x 0
+  ends : ∀ o ∈ n.bus.txs, o.sender = x → cEnd cfg o ≤ l + 1
   xl : x < n.stations.length
   xs : x < n.bus.seen.length
   gx : n.stations[x]? = some st
@@ -189,6 +193,36 @@ structure Solo (cfg : Cfg) (n : Net) (x : Nat) (st : NetStation) (l : Int) : Pro
 theorem Solo.bits {cfg : Cfg} {n : Net} {x : Nat} {st : NetStation} {l : Int} (h : Solo cfg n x st l) (k : Nat) :
     st.s.p.bits k = bitsToTime cfg.rate k := by unfold Params.bits; rw [h.prate]
 
+theorem Solo.deliver {cfg : Cfg} {n : Net} {x : Nat} {st : NetStation} {l : Int} (h : Solo cfg n x st l) (hr : 0 < cfg.rate)
+    (now : Int) (hsn : n.bus.seen.getD x 0 ≤ now) :
+    n.bus.deliver x now = ({ n.bus with seen := n.bus.seen.set x now }, []) := by
+  have hbc : n.bus.Chained n.bus.txs := by
+    unfold Bus.Chained
+    have := h.chained
+    unfold CChained at this
+    refine this.imp ?_
+    intro o t hot
+    unfold Bus.txEnd
+    rw [byteEnd_cfg n.bus cfg h.rate]; exact hot
+  rw [Bus.deliver_chained n.bus (by rw [h.rate]; exact hr) h.corrupt x now hbc h.live]
+  rw [seg_done cfg hr n.bus h.rate x _ now hsn n.bus.txs (fun o ho =>
+    (h.done o ho).imp id (fun hh => ⟨h.pos o ho, hh⟩))]
+
+theorem Solo.phy {cfg : Cfg} {n : Net} {x : Nat} {st : NetStation} {l : Int} (h : Solo cfg n x st l) (now : Int) (hl : l < now) :
+    n.bus.transmitting x now = false := by
+  unfold Bus.transmitting
+  cases hf : n.bus.txs.reverse.find? (fun t => decide (t.sender = x)) with
+  | none => rfl
+  | some t =>
+    have hmem : t ∈ n.bus.txs := List.mem_reverse.1 (List.mem_of_find?_eq_some hf)
+    have hs : t.sender = x := by simpa using List.find?_some hf
+    have := h.ends t hmem hs
+    simp only [decide_eq_false_iff_not]
+    unfold Bus.txEnd
+    rw [byteEnd_cfg n.bus cfg h.rate]
+    unfold cEnd at this
+    omega
+
 /-- A poll of the lone station later than its stamp: the state handler runs on an empty buffer with an idle PHY;
 the new record and the new log again satisfy `Solo`. -/
 theorem solo_step {cfg : Cfg} {n : Net} {x : Nat} {st : NetStation} {l : Int} (h : Solo cfg n x st l) (hr : 0 < cfg.rate)
@@ -196,7 +230,7 @@ theorem solo_step {cfg : Cfg} {n : Net} {x : Nat} {st : NetStation} {l : Int} (h
     (hno : st.s.st ≠ .offline) (hnp : st.s.st ≠ .passiveIdle)
     (hd : dispatch { s := st.s, apps := st.apps, rx := [] } now = .ok c) (l' : Int)
     (h1 : c.s.online = true) (h2 : c.s.p = st.s.p) (h3 : c.rx = []) (h4 : c.s.lastBusActivity = some l') (h5 : l ≤ l')
-    (h6 : ∀ b, c.tx = some b → now + ((cfg.ce (b.length - 1) : Nat) : Int) ≤ l' + 1) :
+    (h6 : ∀ b, c.tx = some b → 0 < b.length ∧ now + ((cfg.ce (b.length - 1) : Nat) : Int) ≤ l' + 1) :
     ∃ n', n.poll x now = (n', [], some (.ok c)) ∧ Solo cfg n' x (upSt st c) l' ∧ n'.bus.seen.getD x 0 = now := by
   have hp : st.s.poll st.apps now false [] = .ok c := by
     rw [poll_dispatch st.s st.apps now [] h.son hno hnp (by intro l0 hl0; rw [h.stamp] at hl0; cases hl0; exact hlt)]
@@ -207,36 +241,87 @@ theorem solo_step {cfg : Cfg} {n : Net} {x : Nat} {st : NetStation} {l : Int} (h
     have : st.s.poll st.apps now false [] = .ok c' := hc'
     rw [hp] at this; cases this; rfl
   subst hcc
-  have hphy := Bus.transmitting_allOwn cfg n.bus x l now h.rate h.ends hlt
+  have hphy := h.phy now hlt
   have hp' : st.s.poll st.apps now (Bus.transmitting { n.bus with seen := n.bus.seen.set x now } x now)
       (st.rx ++ []) = .ok c' := by rw [transmitting_seen, h.rx, hphy]; exact hp
-  have hpe := Net.poll_eq n x now st _ [] c' h.gx h.alive h.online (Bus.deliver_allOwn n.bus x now h.own) hp'
+  have hpe := Net.poll_eq n x now st _ [] c' h.gx h.alive h.online (h.deliver hr now (Int.le_of_lt hown)) hp'
   have hrate : 0 < n.bus.rate := by rw [h.rate]; exact hr
+  have hends : ∀ o ∈ n.bus.txs, cEnd cfg o ≤ now := by
+    intro o ho
+    rcases h.done o ho with hs | hs
+    · have := h.ends o ho hs; omega
+    · omega
   refine ⟨_, hpe, ?_, ?_⟩
   · cases htx : c'.tx with
     | none =>
       simp only
-      refine ⟨h.rate, h.drops, h.own, fun o ho => by have := h.ends o ho; omega, by simp only [List.length_set]; exact h.xl,
+      refine ⟨h.rate, h.drops, h.corrupt, h.chained, h.live, h.pos, ?_, fun o ho hs => by have := h.ends o ho hs; omega,
+        by simp only [List.length_set]; exact h.xl,
         by simp only [List.length_set]; exact h.xs, List.getElem?_set_self h.xl, h.online, h.alive, hinv', h1, h3, h4,
         by show c'.s.p.rate = _; rw [h2]; exact h.prate, by show c'.s.p.slotBits = _; rw [h2]; exact h.pslot⟩
+      intro o ho
+      rw [seen_set_self _ _ _ h.xs]
+      exact (h.done o ho).imp id (fun hh => by omega)
     | some b =>
       simp only
+      obtain ⟨hbl, hbe⟩ := h6 b htx
       obtain ⟨old', e1, e2, e3, e4, e5, e6⟩ := Bus.send_txs { n.bus with seen := n.bus.seen.set x now } x now b h.drops hrate
-      refine ⟨e3.trans h.rate, e6, ?_, ?_, by simp only [List.length_set]; exact h.xl,
+      have hspec := Bus.send_spec { n.bus with seen := n.bus.seen.set x now } x now b h.drops
+      have hsub : old'.Sublist n.bus.txs := by
+        have : (Bus.send { n.bus with seen := n.bus.seen.set x now } x now b).txs =
+            (n.bus.txs.filter fun t => decide (n.bus.txEnd t + 100000 > now)) ++
+              [({ start := now, sender := x, bytes := b, dropped := false } : Transmission)] := by
+          rw [hspec]
+          simp only [List.filter_append, List.filter_cons, List.filter_nil]
+          have : decide (Bus.txEnd { n.bus with seen := n.bus.seen.set x now }
+              ({ start := now, sender := x, bytes := b, dropped := false } : Transmission) + 100000 > now) = true := by
+            have := Bus.byteEnd_pos n.bus hrate (b.length - 1)
+            unfold Bus.txEnd
+            simp only [decide_eq_true_eq]
+            show now + n.bus.byteEnd (b.length - 1) + 100000 > now
+            omega
+          rw [if_pos this]
+          rfl
+        rw [e1] at this
+        have hh := List.append_inj_left' this rfl
+        rw [hh]
+        exact List.filter_sublist
+      refine ⟨e3.trans h.rate, e6, e5.trans h.corrupt, ?_, ?_, ?_, ?_, ?_, by simp only [List.length_set]; exact h.xl,
         by rw [e4]; simp only [List.length_set]; exact h.xs, List.getElem?_set_self h.xl, h.online, h.alive, hinv', h1, h3, h4,
         by show c'.s.p.rate = _; rw [h2]; exact h.prate, by show c'.s.p.slotBits = _; rw [h2]; exact h.pslot⟩
+      · rw [e1]
+        unfold CChained
+        rw [List.pairwise_append]
+        refine ⟨List.Pairwise.sublist hsub h.chained, List.pairwise_singleton _ _, ?_⟩
+        intro o ho t ht
+        simp only [List.mem_singleton] at ht
+        subst ht
+        exact hends o (e2 o ho)
+      · intro t ht
+        rw [e1] at ht
+        rcases List.mem_append.1 ht with ht | ht
+        · exact h.live t (e2 t ht)
+        · simp only [List.mem_singleton] at ht; subst ht; rfl
+      · intro t ht
+        rw [e1] at ht
+        rcases List.mem_append.1 ht with ht | ht
+        · exact h.pos t (e2 t ht)
+        · simp only [List.mem_singleton] at ht; subst ht; exact hbl
       · intro o ho
         rw [e1] at ho
+        rw [e4]
+        simp only
+        rw [seen_set_self _ _ _ h.xs]
         rcases List.mem_append.1 ho with ho | ho
-        · exact h.own o (e2 o ho)
-        · simp only [List.mem_singleton] at ho; subst ho; rfl
-      · intro o ho
+        · exact .inr (hends o (e2 o ho))
+        · simp only [List.mem_singleton] at ho; subst ho; exact .inl rfl
+      · intro o ho hs
         rw [e1] at ho
         rcases List.mem_append.1 ho with ho | ho
-        · have := h.ends o (e2 o ho); omega
+        · have := hends o (e2 o ho); omega
         · simp only [List.mem_singleton] at ho; subst ho
           unfold cEnd
-          exact h6 b htx
+          exact hbe
   · cases htx : c'.tx with
     | none => simp only; rw [seen_set_self _ _ _ h.xs]
     | some b =>
@@ -245,20 +330,24 @@ theorem solo_step {cfg : Cfg} {n : Net} {x : Nat} {st : NetStation} {l : Int} (h
       rw [e4]; simp only; rw [seen_set_self _ _ _ h.xs]
 
 /-- A poll of the lone station not later than its stamp: nothing happens. -/
-theorem solo_ongoing {cfg : Cfg} {n : Net} {x : Nat} {st : NetStation} {l : Int} (h : Solo cfg n x st l)
-    (now : Int) (hle : now ≤ l) (hno : st.s.st ≠ .offline) (hnp : st.s.st ≠ .passiveIdle) :
+theorem solo_ongoing {cfg : Cfg} {n : Net} {x : Nat} {st : NetStation} {l : Int} (h : Solo cfg n x st l) (hr : 0 < cfg.rate)
+    (now : Int) (hown : n.bus.seen.getD x 0 < now) (hle : now ≤ l) (hno : st.s.st ≠ .offline) (hnp : st.s.st ≠ .passiveIdle) :
     ∃ n', n.poll x now = (n', [], some (.ok { s := st.s, apps := st.apps, rx := [] })) ∧ Solo cfg n' x st l ∧
       n'.bus.seen.getD x 0 = now := by
   have hp := poll_ongoing st.s st.apps now (Bus.transmitting { n.bus with seen := n.bus.seen.set x now } x now) (st.rx ++ [])
     h.son hno hnp l h.stamp hle
-  have hpe := Net.poll_eq n x now st _ [] _ h.gx h.alive h.online (Bus.deliver_allOwn n.bus x now h.own) hp
+  have hpe := Net.poll_eq n x now st _ [] _ h.gx h.alive h.online (h.deliver hr now (Int.le_of_lt hown)) hp
   simp only [List.append_nil, h.rx] at hpe
   have hsame : ({ st with s := st.s, apps := st.apps, rx := [] } : NetStation) = st := by rw [← h.rx]
   rw [hsame] at hpe
   refine ⟨_, hpe, ?_, ?_⟩
-  · exact ⟨h.rate, h.drops, h.own, h.ends, by simp only [List.length_set]; exact h.xl,
+  · refine ⟨h.rate, h.drops, h.corrupt, h.chained, h.live, h.pos, ?_, h.ends, by simp only [List.length_set]; exact h.xl,
       by simp only [List.length_set]; exact h.xs, List.getElem?_set_self h.xl, h.online, h.alive, h.inv, h.son, h.rx,
       h.stamp, h.prate, h.pslot⟩
+    intro o ho
+    simp only
+    rw [seen_set_self _ _ _ h.xs]
+    exact (h.done o ho).imp id (fun hh => by omega)
   · simp only; rw [seen_set_self _ _ _ h.xs]
 
 /-! ## Stages of the lone claimant -/
@@ -372,7 +461,7 @@ theorem form_step {cfg : Cfg} {n : Net} {x : Nat} {st : NetStation} {l : Int} (h
     exact Or.inr ⟨stage, l, by rw [hup]; exact hS, hs, hv, rfl, .inl rfl, by omega, fun _ => ⟨rfl, by omega⟩,
       fun h => absurd rfl h⟩
   by_cases hle : now ≤ l
-  · obtain ⟨n', hp, hS, hseen⟩ := solo_ongoing h now hle hno.1 hno.2
+  · obtain ⟨n', hp, hS, hseen⟩ := solo_ongoing h hr now hown hle hno.1 hno.2
     exact ⟨n', _, hp, hseen, by omega, same n' hS (by omega)⟩
   have hlt : l < now := by omega
   have hgapc : ∀ cur, st.s.gap = .doPoll cur → cur < st.s.p.hsa := h.inv.gap
@@ -438,6 +527,7 @@ theorem form_step {cfg : Cfg} {n : Net} {x : Nat} {st : NetStation} {l : Int} (h
         (by omega) (fun b hb => by
           cases hb
           rw [statusRequestBytes_length]
+          refine ⟨by omega, ?_⟩
           show now + ((cfg.ce 5 : Nat) : Int) ≤ _
           omega)
       refine ⟨n', hp, hseen, ?_⟩
@@ -465,6 +555,7 @@ theorem form_step {cfg : Cfg} {n : Net} {x : Nat} {st : NetStation} {l : Int} (h
     obtain ⟨n', hp, hS, hseen⟩ := solo_step h hr now hown hlt _ hno.1 hno.2 hd (now + (cfg.b33 : Nat)) h.son rfl rfl hst'
       (by omega) (fun b hb => by
         cases hb
+        refine ⟨by show 0 < 3; omega, ?_⟩
         show now + ((cfg.ce 2 : Nat) : Int) ≤ _
         omega)
     refine ⟨n', _, hp, hseen, hnP, ?_⟩
@@ -565,6 +656,7 @@ theorem form_step {cfg : Cfg} {n : Net} {x : Nat} {st : NetStation} {l : Int} (h
       (by omega) (fun b hb => by
         rw [b1] at hb
         cases hb
+        refine ⟨by show 0 < 3; omega, ?_⟩
         show now + ((cfg.ce 2 : Nat) : Int) ≤ _
         omega)
     refine ⟨n', c', hp, hseen, hnP, ?_⟩
@@ -658,7 +750,7 @@ theorem lone_listen_wait {cfg : Cfg} {n : Net} {x : Nat} {st : NetStation} {l : 
   have hno : st.s.st ≠ .offline ∧ st.s.st ≠ .passiveIdle := by rw [hst]; simp
   have hup : upSt st { s := st.s, apps := st.apps, rx := [] } = st := by unfold upSt; rw [← h.rx]
   by_cases hle : now ≤ l
-  · obtain ⟨n', hp, hS, hseen⟩ := solo_ongoing h now hle hno.1 hno.2
+  · obtain ⟨n', hp, hS, hseen⟩ := solo_ongoing h hok.rate now hown hle hno.1 hno.2
     exact ⟨n', _, hp, rfl, hS, hseen⟩
   · have hd := listen_dispatch_quiet { s := st.s, apps := st.apps, rx := [] } now l coll hst rfl h.stamp hw (by omega)
     obtain ⟨n', hp, hS, hseen⟩ := solo_step h hok.rate now hown (by omega) _ hno.1 hno.2 hd l h.son rfl rfl h.stamp
@@ -691,6 +783,7 @@ theorem lone_listen_claim {cfg : Cfg} {n : Net} {x : Nat} {st : NetStation} {l :
   obtain ⟨n', hp, hS, hseen⟩ := solo_step h hok.rate now hown (by omega) _ hno.1 hno.2 hd (now + (cfg.b33 : Nat)) h.son rfl rfl hst'
     (by omega) (fun b hb => by
       cases hb
+      refine ⟨by show 0 < 3; omega, ?_⟩
       show now + ((cfg.ce 2 : Nat) : Int) ≤ _
       omega)
   exact ⟨n', _, hp, hseen, rfl, hS, rfl, hv, rfl⟩
